@@ -953,7 +953,7 @@ class MetaGrid(object):
         grid_size = self.grid.grid_sizes[level]
         return min(self.meta_size[0], grid_size[0]), min(self.meta_size[1], grid_size[1])
 
-    def get_affected_level_tiles(self, bbox, level):
+    def get_affected_level_tiles(self, bbox, level, inset_res=None):
         """
         Get a list with all affected tiles for a `bbox` in the given `level`.
 
@@ -970,7 +970,7 @@ class MetaGrid(object):
         """
 
         # remove 1/10 of a pixel so we don't get a tiles we only touch
-        delta = self.grid.resolutions[level] / 10.0
+        delta = (inset_res or self.grid.resolutions[level]) / 10.0
         x0, y0, _ = self.grid.tile(bbox[0]+delta, bbox[1]+delta, level)
         x1, y1, _ = self.grid.tile(bbox[2]-delta, bbox[3]-delta, level)
 
